@@ -103,6 +103,9 @@ def run(ctx, F):
     # A: per-inner vectors interleaved round-robin
     if shape is None:
         per_inner = any(n.get("e") == "mcall" and n["m"] == "map" and inner_name in A.show(n["recv"]) and any(m.get("e") == "mcall" and m["m"] == "nest" for m in A.walk(n["args"][0])) for n in A.walk(f["body"]) if n.get("args"))
+        # the same written as a `for` over the inner list that pushes one list per inner selector
+        per_inner = per_inner or any(n.get("e") == "for" and source(n["iter"]) == "inner" and any(m.get("e") == "mcall" and m["m"] == "nest" for m in A.walk(n["body"]))
+                                     and any(m.get("e") == "mcall" and m["m"] == "push" for m in A.walk(n["body"])) for n in A.walk(f["body"]))
         rr = False
         for n in A.walk(f["body"]):
             if n.get("e") in ("while", "loop"):
